@@ -35,14 +35,23 @@ let wild = ZA.of_int (-9)
 
 let any = ZA.of_int (-8)
 
+let rest = ZA.of_int (-10)
+let nonzero = ZA.of_int (-11)
+
 let rec spec_match' impl sp =
   match impl, sp with
+  | _, [y] when ZA.equal y rest -> true
   | [], [] -> true
   | x :: a, y :: b -> (ZA.equal y wild || ZA.equal x y) && spec_match' a b
   | _, _ -> false
 
 let spec_match impl sp =
-  match sp with [y] when ZA.equal y any -> true | _ -> spec_match' impl sp
+  match sp with
+  | [y] when ZA.equal y any -> true
+  | [y] when ZA.equal y nonzero -> (match impl with [c] -> not (ZA.equal c ZA.zero) | _ -> false)
+  | y :: sp' when ZA.equal y (ZA.of_int (-12)) ->
+    (match impl with [c] -> not (ZA.equal c ZA.zero) | _ -> spec_match' impl sp')
+  | _ -> spec_match' impl sp
 
 let () =
   let n = ref 0 and mm = ref 0 and sm = ref 0 in
